@@ -45,21 +45,25 @@ ParseStruct(x) ==
   IF IsPair(x) /\ IsHash(x.l, 32) /\ IsPair(x.r) /\ IsHash(x.r.l, 32) /\ IsHash(x.r.r, 32)
   THEN [ok |-> TRUE, mod |-> x.l.a, lid |-> x.r.l.a, lph |-> x.r.r.a] ELSE [ok |-> FALSE]
 
+\* clvm-traits "list" representation: the listed elements must be present, whatever follows them is
+\* ignored (documented leniency); the ignored tails are kept here so that the rewrite can be compared
 ParseProof(x) ==
-  IF IsPair(x) /\ IsHash(x.l, 32) /\ IsPair(x.r) /\ IsHash(x.r.l, 32) /\ IsPair(x.r.r) /\ U64Ok(x.r.r.l) /\ IsNil(x.r.r.r)
-  THEN [ok |-> TRUE, k |-> "lineage", pp |-> x.l.a, pih |-> x.r.l.a, pamt |-> U64Val(x.r.r.l)]
-  ELSE IF IsPair(x) /\ IsHash(x.l, 32) /\ IsPair(x.r) /\ U64Ok(x.r.l) /\ IsNil(x.r.r)
-  THEN [ok |-> TRUE, k |-> "eve", pp |-> x.l.a, pamt |-> U64Val(x.r.l)]
+  IF IsPair(x) /\ IsHash(x.l, 32) /\ IsPair(x.r) /\ IsHash(x.r.l, 32) /\ IsPair(x.r.r) /\ U64Ok(x.r.r.l)
+  THEN [ok |-> TRUE, k |-> "lineage", pp |-> x.l.a, pih |-> x.r.l.a, pamt |-> U64Val(x.r.r.l), tail |-> x.r.r.r]
+  ELSE IF IsPair(x) /\ IsHash(x.l, 32) /\ IsPair(x.r) /\ U64Ok(x.r.l)
+  THEN [ok |-> TRUE, k |-> "eve", pp |-> x.l.a, pamt |-> U64Val(x.r.l), tail |-> x.r.r]
   ELSE [ok |-> FALSE]
 
 ParseSolution(x) ==
-  IF IsPair(x) /\ IsPair(x.r) /\ IsPair(x.r.r) /\ IsNil(x.r.r.r) /\ ParseProof(x.l).ok /\ U64Ok(x.r.l)
-  THEN [ok |-> TRUE, proof |-> ParseProof(x.l), amount |-> U64Val(x.r.l), inner |-> x.r.r.l] ELSE [ok |-> FALSE]
+  IF IsPair(x) /\ IsPair(x.r) /\ IsPair(x.r.r) /\ ParseProof(x.l).ok /\ U64Ok(x.r.l)
+  THEN [ok |-> TRUE, proof |-> ParseProof(x.l), amount |-> U64Val(x.r.l), inner |-> x.r.r.l, tail |-> x.r.r.r] ELSE [ok |-> FALSE]
 
 SolutionSx(s) ==
-  ListOf(<<IF s.proof.k = "lineage" THEN ListOf(<<Atom(s.proof.pp), Atom(s.proof.pih), Atom(Enc(s.proof.pamt))>>)
-                                    ELSE ListOf(<<Atom(s.proof.pp), Atom(Enc(s.proof.pamt))>>),
-           Atom(Enc(s.amount)), s.inner>>)
+  ListWithTail(<<IF s.proof.k = "lineage" THEN ListWithTail(<<Atom(s.proof.pp), Atom(s.proof.pih), Atom(Enc(s.proof.pamt))>>, s.proof.tail)
+                                           ELSE ListWithTail(<<Atom(s.proof.pp), Atom(Enc(s.proof.pamt))>>, s.proof.tail),
+                 Atom(Enc(s.amount)), s.inner>>, s.tail)
+\* the same solution without what a lenient parser ignores
+DropTails(s) == [s EXCEPT !.tail = Nil, !.proof.tail = Nil]
 
 IdOf(c) == CoinIdOf(c.parent, c.ph, Enc(c.amt))
 \* puzzle hash of the singleton (struct) with an inner puzzle of hash ih
@@ -89,12 +93,14 @@ FFGuard(in) == /\ GOdd(in) /\ GSamePh(in) /\ Parses(in) /\ GLineage(in) /\ GMod(
 FFResult(in) == LET s == ParseSolution(in.sol) IN
                 [s EXCEPT !.proof.pp = in.np.parent, !.proof.pamt = in.np.amt, !.amount = in.nc.amt]
 FFResultSx(in) == SolutionSx(FFResult(in))
+FFResultNoTailsSx(in) == SolutionSx(DropTails(FFResult(in)))
 Rewrite(in) == IF FFGuard(in) THEN [ok |-> TRUE, sol |-> FFResultSx(in)] ELSE [ok |-> FALSE]
 
 (* ---- properties of the rule (checked by MC_FastForward) ---- *)
 OnlyThreeFields(in) ==
   FFGuard(in) => LET a == ParseSolution(in.sol)  b == ParseSolution(Rewrite(in).sol) IN
                  /\ b.ok /\ b.inner = a.inner /\ b.proof.k = a.proof.k /\ b.proof.pih = a.proof.pih
+                 /\ b.tail = a.tail /\ b.proof.tail = a.proof.tail
                  /\ b.proof.pp = in.np.parent /\ b.proof.pamt = in.np.amt /\ b.amount = in.nc.amt
 Refuses(in) == ~FFGuard(in) => ~Rewrite(in).ok
 \* what the top layer asserts about itself when run with solution s: amount and parent id
